@@ -4,9 +4,11 @@
 //@ cbmc all --unwind 400 --unwinding-assertions
 //@ entry h_msg_tables
 //@ note W: the four compiled-in message tables of the InMemory message loader are copied textually from XercesMessages_en_US.hpp; loops over all rows fully unwound (no input: the tables are constants)
-//@ note closes the table assumption of unit msg_loadmsg: every id 1..g...ArraySize names an existing row, and every row is NUL-terminated inside its 128 units (a row whose initialiser filled all 128 units would have no terminator)
+//@ note closes the table assumptions of unit msg_loadmsg: every row is NUL-terminated inside its 128 units (a row whose initialiser filled all 128 units would have no terminator), and every message code the library can pass (XMLErrs / XMLValid / XMLExcepts / XMLDOMMsg enumerators; the enumerators beyond the last row are the Low/HighBounds markers of EMPTY categories) names an existing row
+//@ note finding msg_table_size_mismatch (latent, not asserted here): the g...ArraySize constants that loadMsg tests against are 1, 5, 3 and 5 larger than the row counts (they count NoError and the trailing markers), so the range test would admit marker ids whose rows do not exist; no caller passes them
 #define VERIF_DEFINE_GHOSTS
 #include "verif_prelude.h"
+//@ enum src/xercesc/util/XMLDOMMsg.hpp Codes XMLDOMMsg_ scope=XMLDOMMsg
 //@ table src/xercesc/util/MsgLoaders/InMemory/XercesMessages_en_US.hpp gXMLErrArray
 //@ table src/xercesc/util/MsgLoaders/InMemory/XercesMessages_en_US.hpp gXMLErrArraySize
 //@ table src/xercesc/util/MsgLoaders/InMemory/XercesMessages_en_US.hpp gXMLValidityArray
@@ -19,7 +21,7 @@
 #define ROWS(t) (sizeof(t) / sizeof(t[0]))
 #define ROWW(t) (sizeof(t[0]) / sizeof(t[0][0]))
 #define CHECK_TABLE(t, n) \
-  __CPROVER_assert(ROWS(t) == (n), "C01: " #t " has exactly " #n " rows (ids 1.." #n " index inside the table)"); \
+  __CPROVER_assert(ROWS(t) <= (n), "C01: " #t " has at most " #n " rows"); \
   for (XMLSize_t r = 0; r < ROWS(t); r++) __CPROVER_assert(t[r][ROWW(t) - 1] == 0, "C01: every row of " #t " is NUL-terminated inside its row");
 
 void h_msg_tables(void)
@@ -29,5 +31,13 @@ void h_msg_tables(void)
   CHECK_TABLE(gXMLValidityArray, gXMLValidityArraySize)
   CHECK_TABLE(gXMLExceptArray, gXMLExceptArraySize)
   CHECK_TABLE(gXMLDOMMsgArray, gXMLDOMMsgArraySize)
+  /* every code that names a message has a row: the last real category ends at the last row, the categories after it are empty */
+  __CPROVER_assert(XMLErrs_F_HighBounds == ROWS(gXMLErrArray) && XMLErrs_W_LowBounds == 1, "C01: XMLErrs codes 1..F_HighBounds are the rows of gXMLErrArray");
+  __CPROVER_assert(XMLValid_E_HighBounds == ROWS(gXMLValidityArray) && XMLValid_E_LowBounds == 1 && XMLValid_W_LowBounds == XMLValid_E_HighBounds + 1 && XMLValid_W_HighBounds == XMLValid_W_LowBounds + 1
+                   && XMLValid_F_LowBounds == XMLValid_W_HighBounds + 1 && XMLValid_F_HighBounds == XMLValid_F_LowBounds + 1, "C01: XMLValid codes 1..E_HighBounds are the rows of gXMLValidityArray, the W and F categories are empty");
+  __CPROVER_assert(XMLExcepts_F_HighBounds == ROWS(gXMLExceptArray) && XMLExcepts_W_LowBounds == 1 && XMLExcepts_E_LowBounds == XMLExcepts_F_HighBounds + 1 && XMLExcepts_E_HighBounds == XMLExcepts_E_LowBounds + 1,
+                   "C01: XMLExcepts codes 1..F_HighBounds are the rows of gXMLExceptArray, the E category is empty");
+  __CPROVER_assert(XMLDOMMsg_F_HighBounds == ROWS(gXMLDOMMsgArray) && XMLDOMMsg_F_LowBounds == 1 && XMLDOMMsg_W_LowBounds == XMLDOMMsg_F_HighBounds + 1 && XMLDOMMsg_W_HighBounds == XMLDOMMsg_W_LowBounds + 1
+                   && XMLDOMMsg_E_LowBounds == XMLDOMMsg_W_HighBounds + 1 && XMLDOMMsg_E_HighBounds == XMLDOMMsg_E_LowBounds + 1, "C01: XMLDOMMsg codes 1..F_HighBounds are the rows of gXMLDOMMsgArray, the W and E categories are empty");
   VERIF_CANARY("after table checks");
 }
